@@ -391,7 +391,8 @@ def write_replay(pid, payload):
 
 
 def write_evidence(pid, ev):
-    d = os.path.join(VERIF, 'evidence')
+    # development runs against a scratch worktree (VERIF_REPO) never overwrite the evidence of /repo
+    d = os.path.join(VERIF, 'evidence') if REPO == '/repo' else os.path.join(BUILD, 'evidence_dev')
     os.makedirs(d, exist_ok=True)
     path = os.path.join(d, '%s.json' % pid)
     tmp = path + '.tmp.%d' % os.getpid()
